@@ -522,10 +522,10 @@ theorem scotEpilogue_spec {s : St α} (hg : Good A s) :
   generalize s.pendingL.foldl (fun acc c => acc.unpendSilent c.cid) s = s5 at *
   by_cases hfit : ((s5.hopeful.length : Int) ≤ s5.seatsLeft)
   · simp only [hfit, decide_true, if_true]
-    obtain ⟨hg6, a6, b6, f6, x6, c6⟩ := foldElectAll A hg5 s5.hopeful "Elect remaining candidates"
+    obtain ⟨hg6, a6, b6, f6, x6, c6, _⟩ := foldElectAll A hg5 s5.hopeful "Elect remaining candidates"
       (hopeful_cids_nodup hg5.1.wf) (fun w hw => mem_hopeful.1 hw)
     generalize s5.hopeful.foldl (fun acc c => acc.elect A c.cid "Elect remaining candidates" false) s5 = s6 at *
-    obtain ⟨hg7, a7, b7, f7, x7, c7⟩ := foldDefeatAll A hg6 s6.hopeful "Defeat remaining candidates"
+    obtain ⟨hg7, a7, b7, f7, x7, c7, _⟩ := foldDefeatAll A hg6 s6.hopeful "Defeat remaining candidates"
       (hopeful_cids_nodup hg6.1.wf) (fun w hw => mem_hopeful.1 hw)
     refine ⟨hg7, hx5.trans (x6.trans x7), by rw [c7, c6, hc5], by rw [f7.2.1, f6.2.1, u3], ?_, ?_⟩
     · unfold nHop at a7 ⊢; omega
@@ -535,7 +535,7 @@ theorem scotEpilogue_spec {s : St α} (hg : Good A s) :
       unfold nHop nEl at *
       omega
   · simp only [hfit, decide_false, Bool.false_eq_true, if_false]
-    obtain ⟨hg7, a7, b7, f7, x7, c7⟩ := foldDefeatAll A hg5 s5.hopeful "Defeat remaining candidates"
+    obtain ⟨hg7, a7, b7, f7, x7, c7, _⟩ := foldDefeatAll A hg5 s5.hopeful "Defeat remaining candidates"
       (hopeful_cids_nodup hg5.1.wf) (fun w hw => mem_hopeful.1 hw)
     refine ⟨hg7, hx5.trans x7, by rw [c7, hc5], by rw [f7.2.1, u3], ?_, ?_⟩
     · unfold nHop at a7 ⊢; omega
